@@ -1,0 +1,14 @@
+//! Verification facade (cargo feature `verif-hooks`).
+//!
+//! Add-only: re-exports and thin wrappers around items that are private,
+//! `pub(crate)` or `cfg(test)` so that an external harness crate can drive
+//! them. Nothing here changes behaviour; without the feature this module is
+//! not compiled.
+
+pub mod ingress {
+    pub use crate::ingress::{IngressId, IngressInfo, Register};
+
+    pub fn new_register() -> Register {
+        Register::verif_with_serial(1)
+    }
+}
